@@ -309,9 +309,11 @@ def run(tier="quick", seed=0):
     tasks += [{"kind": "tokens", "seed": seed * 100 + i, "n": n} for i in range(12)]
     tasks += [{"kind": "mixtures"}]
     res = harness.run_tasks("monitor.drive_C02", "work", tasks, timeout=300 if tier == "quick" else 1500)
+    res += harness.run_tasks("monitor.purecheck", "work", [{"fn": "token._push_pop_atom_branch", "tier": tier, "prop": "C02"}], timeout=600)
     out = harness.merge(res, rule="(a) archetype molecules printed by an independent printer in 4 number formats / 3 whitespace styles, compared with the "
                         "structured description; (b) random token trees (branches, bracket and two-letter atoms, rings, =/# towards descriptors, descriptors "
                         "first / last / inside a branch / as a branch of their own) with RDKit on the dummy-atom SMILES as oracle for binding atom and "
-                        "bond order; (c) mixture float spellings. distinct = distinct accepted texts")
+                        "bond order; (c) mixture float spellings; (d) token._push_pop_atom_branch on every text over '(', ')', 'C' up to length 6 (thorough: 9) x 5 stacks, "
+                        "against the ensures clauses of its (proved) contract evaluated natively. distinct = distinct accepted texts")
     out["assumptions"] = ["bounded layer: only the generated strings; RDKit's SMILES parser is the oracle for 'as if an atom were written there'"]
     return out
